@@ -72,6 +72,10 @@ item: _open NAME _close
     | _mark item "!" -> marked
     | _open _close -> unit
     | NUM
+    | "<" NAME opt
+    | "%" NUM _tail -> pct
+opt: | "+"
+_tail: | "~"
 _open: "("
 _close: ")"
 _mark: "@" | "#"
@@ -274,7 +278,7 @@ _add(Entry('inl', G_INL, {'parser': 'lalr'},
 _add(Entry('inl0', G_INL0, {'parser': 'lalr'},
            _prod(LX, {'ph': {}, 'noph': {'maybe_placeholders': False}, 'kat': {'keep_all_tokens': True}, 'pp': {'propagate_positions': True}}),
            samples={'NAME': ['x', 'ab'], 'NUM': ['1', '42']},
-           texts=["(a) 1 @2!", "@#(b)!! 3 ()", "", "( 1", "@ ! 2", "1 2 (c) (d)", "()()@()!"]))
+           texts=["(a) 1 @2!", "@#(b)!! 3 ()", "", "( 1", "@ ! 2", "1 2 (c) (d)", "()()@()!", "<a <b+ %1 %2~ 3", "@<x! %7", "<a+ +", "% ~"]))
 _add(Entry('kw', G_KW, {'parser': 'lalr'},
            _prod(LX, {'ph': {}, 'noph': {'maybe_placeholders': False}, 'pp': {'propagate_positions': True}}),
            samples={'NAME': ['foo', 'Bar', 'iff'], 'NUM': ['7', '10']},
@@ -396,13 +400,20 @@ def build(cfg, **extra):
     return Lark(e.grammar, **opts)
 
 
+SLICE_PADS = ['<<<', '\n\n<', 'a\nb', '<<<', '\n<<', '<<\n', '\n\n\n', '<<<<<<', '\n<\n<<\n']
+
+
 def as_input(e, text):
     if e.input_kind == 'bytes':
         return text.encode('latin-1', 'replace')
     if e.input_kind == 'slice':
         from lark.utils import TextSlice
-        pad = '<<<'
-        return TextSlice(pad + text + '>>>', len(pad), len(pad) + len(text))
+        # what surrounds the slice is a function of the text (so that the oracle gets the same input): prefixes of one length
+        # with different line structure - the coordinates of a slice count the line breaks before it
+        import zlib
+        pad = SLICE_PADS[zlib.crc32(text.encode('utf8', 'replace')) % len(SLICE_PADS)]
+        from sim import seams
+        return TextSlice(seams.mkbuf(pad + text + '>>>'), len(pad), len(pad) + len(text))
     return text
 
 
